@@ -356,6 +356,17 @@ class C01:
             ctx.bad("R01.1", rowner.module.relpath, f"{rowner.name}.{rmeth}", f"return {rt.name if rt else '?'}(...)",
                     f"reader constructs {rt.name if rt else '?'} but the adapter's data class is {D.name}", rret.lineno)
             return
+        # R01.11 direction: a writer converts its parts with the sub-adapters' to_aoef, a reader with to_soundevent / from_id
+        if only is None:
+            for summ_, owner_, meth_, wrong_, right_ in ((ws, wowner, wmeth, ("to_soundevent", "from_id"), "to_aoef"), (rs, rowner, rmeth, ("to_aoef",), "to_soundevent / from_id")):
+                hits_ = [e for e in summ_.calls if e.term[1][0] == "attr" and e.term[1][2] in wrong_ and e.term[1][1][0] == "attr"
+                         and e.term[1][1][1] == ("param", "self")]
+                for e in hits_:
+                    ctx.bad("R01.11", owner_.module.relpath, f"{owner_.name}.{meth_}", f"self.{e.term[1][1][2]}.{e.term[1][2]}(...)",
+                            f"{owner_.name}.{meth_} converts a part with self.{e.term[1][1][2]}.{e.term[1][2]} -- the conversion of the opposite "
+                            f"direction ({right_} is the one of this method): the part is handed over as the wrong kind of object", e.lineno)
+                if not hits_:
+                    ctx.ok("R01.11", f"{owner_.module.relpath} {owner_.name}.{meth_}", f"parts converted with {right_} only")
         Df, Of = m.field_map(D), m.field_map(O)
         if only is not None:
             Df = {k: v for k, v in Df.items() if k in only}
@@ -477,6 +488,36 @@ class C01:
                             f"(`{show(rt_)[:90]}`): the stored value is never read back", rret.lineno, witness={"document_field": lost})
                 else:
                     ctx.ok("R01.2", rsite, f"{D.name}.{f} <-> {O.name}.{'/'.join(G)}")
+        # R01.10 an identifier is looked up in the store of the adapter that issued it: the reader's `self.X.from_id(obj.g)` names
+        # the same sub-adapter X as the writer's `self.X.to_aoef(...)` that produced g (another adapter's store does not know the id:
+        # the lookup gives None and the reference is dropped without an error)
+        def adapters_in(t_, meth_):
+            out_ = set()
+            for x in walk(t_):
+                if x[0] == "call" and x[1][0] == "attr" and x[1][2] == meth_ and x[1][1][0] == "attr" and x[1][1][1] == ("param", "self"):
+                    out_.add(x[1][1][2])
+            return out_
+        for f in Df:
+            if f not in rk:
+                continue
+            rt_ = rk[f][2] if rk[f][0] == "from_super" else rk[f]
+            rd = adapters_in(rt_, "from_id")
+            if not rd:
+                continue
+            wr = set()
+            for g in R.get(f, []):
+                if g in wk:
+                    wv_ = wk[g][2] if wk[g][0] == "from_super" else wk[g]
+                    wr |= adapters_in(wv_, "to_aoef")
+            if not wr:
+                continue
+            if rd <= wr:
+                ctx.ok("R01.10", rsite, f"{D.name}.{f}: identifiers issued and looked up by self.{'/'.join(sorted(rd))}")
+            else:
+                ctx.bad("R01.10", rowner.module.relpath, f"{rowner.name}.{rmeth}", f"{D.name}({f}=self.{'/'.join(sorted(rd - wr))}.from_id(...))",
+                        f"{D.name}.{f} is written through self.{'/'.join(sorted(wr))}.to_aoef but read back through "
+                        f"self.{'/'.join(sorted(rd - wr))}.from_id: that adapter's store does not hold these identifiers, the lookup gives None "
+                        f"and the reference is silently dropped", rret.lineno, witness={"written_by": sorted(wr), "looked_up_in": sorted(rd)})
         # R01.8 a field copied as it is must have a document field of the same declared type (no narrowing codec)
         if only is None or True:
             for g, v in wk.items():
@@ -1165,6 +1206,8 @@ def run(ctx: Ctx):
     ctx.rule("R01.8", "a field stored as it is has a document field of the same declared type", 60)
     ctx.rule("R01.1", "field carry: every declared field written, supplied on read; every document field consumed", 200)
     ctx.rule("R01.2", "writer and reader field maps are mutually inverse", 80)
+    ctx.rule("R01.11", "writers convert parts with to_aoef, readers with to_soundevent / from_id", 40)
+    ctx.rule("R01.10", "identifiers are looked up in the store of the adapter that issued them", 15)
     ctx.rule("R01.3", "every elision by the writer is restored by the reader; no scalar truthiness elision", 30)
     ctx.rule("R01.4", "top-level list completeness and writer/reader list agreement", 50)
     ctx.rule("R01.5", "reader registers lists with the right adapter, in wiring order", 90)
